@@ -45,10 +45,10 @@ PROPS["C11"] = {
 }
 
 PROPS["C01"] = {
-    "imports": VIEW_IMPORTS + " Proofs.C11_Statements Proofs.C01_Statements Proofs.RoundTrip",
+    "imports": VIEW_IMPORTS + " Proofs.C11_Statements Proofs.C01_Statements Proofs.RoundTrip Proofs.DecodeTotal1 Proofs.DecodeTotal",
     "prelude": "Definition cfg := Cfg{TAG}.cfg.",
-    "level_text": "Theorem (K3) for every configuration and every code object satisfying the boolean rt_wf_deep/rt_extra_deep, at any nesting depth: decoding then encoding gives back the identical code object record (counts, flags, code bytes, constants recursively, names, variable tables, filename, name, first line, raw line table). Composed from: EXTENDED_ARG folding inverse, replay of the four operand tables (duplicates allowed), one-round jump relaxation on decoded sizes, lossless split/join of the line mapping, line-table codec inverse laws (C10), flags and args round trips. The premises are evaluated on every corpus object in the run (wf-monitor); full to_code_data / from_code_data outputs of model and code are compared (decode, encode groups); the oracle compares attribute by attribute on real interpreters",
-    "level_note": "types.CodeType's own normalisation (CO_NOFREE re-derivation, argument checks) is modelled by pycode_new and exercised by the correspondence; 'CPython-compiled code satisfies rt_wf_deep' is a monitored assumption, not a theorem (non-minimal operand widths on non-jumps, line entries inside an instruction, jump targets off instruction starts are outside it)",
+    "level_text": "Theorem (C01_from_code_succeeds_and_to_code_is_identity) for every configuration and every code object satisfying the boolean total_wf_deep (a predicate on the code object alone, every nesting level: round-trip domain + decodable header): from_code SUCCEEDS and encoding its result gives back the identical code object record; one level: decoding succeeds iff the header is decodable (both directions). Theorem (K3) for every code object satisfying rt_wf_deep/rt_extra_deep, at any nesting depth: decoding then encoding gives back the identical code object record (counts, flags, code bytes, constants recursively, names, variable tables, filename, name, first line, raw line table). Composed from: EXTENDED_ARG folding inverse, replay of the four operand tables (duplicates allowed), one-round jump relaxation on decoded sizes, lossless split/join of the line mapping, line-table codec inverse laws (C10), flags and args round trips. The premises are evaluated on every corpus object in the run (wf-monitor); full to_code_data / from_code_data outputs of model and code are compared (decode, encode groups); the oracle compares attribute by attribute on real interpreters",
+    "level_note": "types.CodeType's own normalisation (CO_NOFREE re-derivation, argument checks) is modelled by pycode_new and exercised by the correspondence; 'CPython-compiled code satisfies total_wf_deep' is a monitored assumption (evaluated on every corpus object; the one known exception, from __future__ import barry_as_FLUFL, is a recorded finding), not a theorem (non-minimal operand widths on non-jumps, line entries inside an instruction, jump targets off instruction starts are outside it)",
     "trusted_base": COMMON_TB,
     "assumptions": [],
     "rule": "corpus of real code objects (repository examples, inline programs, a deterministic stdlib subset; thorough: whole stdlib) and generated programs "
@@ -156,7 +156,7 @@ PROPS["C12"] = {
 }
 
 PROPS["C06"] = {
-    "imports": JSON_IMPORTS + " Spec.Lnotab Spec.Dis Model.ViewSer Proofs.C02_Statements Proofs.C06_Statements", "prelude": "Definition cfg := Cfg{TAG}.cfg.",
+    "imports": JSON_IMPORTS + " Spec.Lnotab Spec.Dis Model.ViewSer Proofs.C02_Statements Proofs.C06_Statements Proofs.CodeRoundTrip", "prelude": "Definition cfg := Cfg{TAG}.cfg.",
     "level_text": "Theorems: normalize is idempotent and respects equality; every history over {JSON round trip, normalize} of any length leaves the normal form unchanged (induction over the history); canonicity: the normalized blocks of decoded data are a function of CPython's reading (dis view) of the code alone, so code objects with equal views and equal kept header fields normalize to EQUAL data whatever their table order, unreferenced entries, redundant EXTENDED_ARG prefixes or CO_NESTED. Stability under the code round trip is a theorem as well (C06_normal_form_stable_under_the_code_roundtrip: decode, normalize, to_code, from_code, normalize gives data == the first normal form, for every configuration with a well-formed flag table naming CO_NOFREE - true of the four generated ones; the unrestricted statement is refuted in Coq). The concrete mutators (permutation, padding, prefixes) and mixed histories are run by the history / variant oracle and by comparing the model's normal forms of both variants", "level_note": "mixed histories interleaving code and JSON round trips follow by alternating the two stability theorems but are not stated as one theorem; that the mutators preserve the dis view is checked per variant by the model (variants group), not proved", "trusted_base": COMMON_TB, "assumptions": [],
     "rule": "histories of 1-8 (thorough 1-20) operations over {code round trip, JSON round trip, normalize} on corpus / generated objects; variants built by independent mutators "
             "(table permutation with operand renumbering, padding with unreferenced entries, CO_NESTED toggle, redundant EXTENDED_ARG 0 prefix with jump re-targeting and rebuilt line table); distinct = distinct (object, history or variant)",
@@ -164,8 +164,8 @@ PROPS["C06"] = {
 }
 
 PROPS["C03"] = {
-    "imports": VIEW_IMPORTS + " Proofs.C11_Statements Proofs.C01_Statements Proofs.C03_Statements Proofs.C03b_Statements Proofs.C03c_Statements", "prelude": "Definition cfg := Cfg{TAG}.cfg.",
-    "level_text": "Theorem (K2) for every configuration and every datum satisfying the boolean data_wf (no private override fields, operand kinds fit the opcodes, jumps designate existing blocks, relative jumps forward): the emitted code object is read back by CPython's disassembler and line reader (Spec/Dis.v, Spec/Lnotab.v) as the data's instruction stream - opcodes, resolved operands (constants up to key equality), jump targets as instruction indices with kind, lines - and the header fields say what the data says; to_code terminates for all data without negative size overrides (real termination proof of the jump-width fix-point); at exit every jump operand is the one the layout requires; gap and collision overrides raise. data_wf and the conclusion are evaluated on every generated datum (wf-monitor); full from_code_data outputs of model and code are compared on hand-built graphs incl. inconsistent overrides", "level_note": "the clause 're-decoding gives the data up to normalization' is proved on the flattened instruction stream (C03_emitted_code_is_in_the_decoder_domain, C03_redecode_gives_the_stream: the emitted code satisfies view_wf and its decoding reads as the input's stream, constants up to key equality); equality of normal forms including block boundaries and header is compared by the oracle; data with line_number=None is outside data_wf before 3.10 (the format cannot express it; to_code raises TypeError); a negative _n_args_override makes to_code loop forever (RelaxProofs.relax_diverges) - not well-formed data", "trusted_base": COMMON_TB + ["dis / co_lines / PyCode_Addr2Line of the running interpreter as readers of the emitted code"],
+    "imports": VIEW_IMPORTS + " Proofs.C11_Statements Proofs.C01_Statements Proofs.C03_Statements Proofs.C03b_Statements Proofs.C03c_Statements Proofs.EncodeTotal1 Proofs.EncodeTotal", "prelude": "Definition cfg := Cfg{TAG}.cfg.",
+    "level_text": "Theorem (K2) for every configuration and every datum satisfying the boolean data_wf (no private override fields, operand kinds fit the opcodes, jumps designate existing blocks, relative jumps forward): the emitted code object is read back by CPython's disassembler and line reader (Spec/Dis.v, Spec/Lnotab.v) as the data's instruction stream - opcodes, resolved operands (constants up to key equality), jump targets as instruction indices with kind, lines - and the header fields say what the data says; to_code terminates for all data without negative size overrides (real termination proof of the jump-width fix-point) and RETURNS a code object for well-formed data exactly when enc_ok holds (stack size >= 0, free-variable operands declared, no positional-only parameters before 3.8, flags expressible: C03_to_code_returns_iff_enc_ok, both directions); at exit every jump operand is the one the layout requires; gap and collision overrides raise. data_wf and the conclusion are evaluated on every generated datum (wf-monitor); full from_code_data outputs of model and code are compared on hand-built graphs incl. inconsistent overrides", "level_note": "the clause 're-decoding gives the data up to normalization' is proved on the flattened instruction stream (C03_emitted_code_is_in_the_decoder_domain, C03_redecode_gives_the_stream: the emitted code satisfies view_wf and its decoding reads as the input's stream, constants up to key equality); equality of normal forms including block boundaries and header is compared by the oracle; data with line_number=None is outside data_wf before 3.10 (the format cannot express it; to_code raises TypeError); a negative _n_args_override makes to_code loop forever (RelaxProofs.relax_diverges) - not well-formed data", "trusted_base": COMMON_TB + ["dis / co_lines / PyCode_Addr2Line of the running interpreter as readers of the emitted code"],
     "assumptions": ["line_number is not None on <= 3.9 (the co_lnotab format cannot express 'no line'; to_code raises TypeError there)"],
     "rule": "hand-built block graphs without override fields: 1-7 blocks of 1-260 instructions, absolute jumps in both directions, forward relative jumps, name tables of 3-300 (thorough 70000) entries, "
             "constants with colliding Python values (1/True/1.0, 0.0/-0.0, 'a'/b'a'), lines with deltas around +-127/128/255/300 and None (3.10), all signature shapes; plus gap / collision / negative overrides; "
